@@ -321,6 +321,30 @@ def _guarded_once(fn, cpu_limit, wall_limit=900.0):
         return ["crash", "child wrote %r" % buf[:100]]
 
 
+def needs_watchdog(data, good_container, stream_input):
+    """Does installing these (tampered) format 4 bundle bytes hand the pack reader a container other than the original one?
+    Only then can the reader get stuck (it busy-loops on a cut or empty container), and only those installs are run in a
+    forked child under the watchdog; a stream that fails to decompress raises, an unchanged container is read as before.
+    Mirrors BundleReader.__init__: two header lines, then iter_decode (stream_input) or bz2.decompress of the rest."""
+    f = io.BytesIO(data)
+    f.readline()
+    f.readline()
+    try:
+        if stream_input:
+            dec, out = bz2.BZ2Decompressor(), []
+            for line in f:
+                try:
+                    out.append(dec.decompress(line))
+                except EOFError:
+                    break
+            got = b"".join(out)
+        else:
+            got = bz2.decompress(f.read())
+    except Exception:       # noqa: BLE001  (the install will raise the same way)
+        return False
+    return got != good_container
+
+
 # ----------------------------------------------------------------------------- one history on one source format
 class Job:
     def __init__(self, hist, pat, exotic, sfmt, workdir):
@@ -331,7 +355,6 @@ class Job:
         self.dag, self.trees, self.meta, self.feats = history(self.P, pat, exotic)
         self.src = ac.build(self.dag, self.trees, sfmt, url=self.url, meta=self.meta)
         self.count = 0
-        self.guarded_left = 3
         self.workdir = workdir
         repo = self.src.repository
         with repo.lock_read():
@@ -419,15 +442,15 @@ class Job:
             secs, raw, head = sections_v4(data)
         else:
             secs, raw, head = sections_09(data), None, None
+        if fmt == "4":                        # within the end of the stream prefer the positions that cut it short
+            cut = [w for w in secs["bz2-eos"] + secs["bz2-tail"] if needs_watchdog(tamper_v4(data, raw, head, *w), raw, True)]
+            if cut:
+                secs["bz2-eos"] = cut
         names = sorted(secs)
-        if self.guarded_left <= 0:           # the watchdog is expensive when it fires: a bounded number of stream tampers per history
-            names = [x for x in names if not x.startswith("bz2-")]
         info["sections"] = names
         start = rng.randrange(len(names))
         for j in range(min(ntamper, len(names))):
             name = names[(start + j) % len(names)]
-            if name.startswith("bz2-"):
-                self.guarded_left -= 1
             where = rng.choice(secs[name])
             bad = tamper_v4(data, raw, head, *where) if fmt == "4" else _sub(data, where)
             if bad == data:
@@ -437,7 +460,9 @@ class Job:
                 res = self.install(bad, base, prep)
                 return [self.classify(st, res), res[2] or ""]
             # a damaged bz2 stream can send the container reader into a busy loop: those installs run under the watchdog
-            outcome, detail = guarded(attempt, lambda: self.prepare(base)) if name.startswith("bz2-") else attempt()
+            # (container-level tampering substitutes a byte in place: the container stays complete)
+            watch = fmt == "4" and where[0] == "raw" and needs_watchdog(bad, raw, True)
+            outcome, detail = guarded(attempt, lambda: self.prepare(base)) if watch else attempt()
             o["tamper"].append({"section": name, "outcome": outcome, "pos": list(where) if fmt == "4" else where, "detail": detail})
         return o, info
 
@@ -543,6 +568,8 @@ class Job:
                 good = None
                 for j in range(tamper_here):
                     pos = rng.randrange(len(md2.bundle))
+                    if j == 0 and all(m.values()):
+                        pos = 39                     # the base64 character that carries the newline ending the bundle header
                     if not (bytes([md2.bundle[pos]]).isalnum()):
                         continue
                     t = copy.copy(md2)
@@ -552,6 +579,7 @@ class Job:
                         repo = self.fresh_repo(submit)
                         md2.install_revisions(repo)
                         good = self.state(repo)
+                        good_container = bz2.decompress(md2.get_raw_bundle()[len(b"# Bazaar revision bundle v4\n#\n"):])
 
                     def attempt(repo, t3=t3, good=good):
                         try:
@@ -561,7 +589,11 @@ class Job:
                             raise
                         except BaseException as e:      # noqa: BLE001
                             return ["rejected", type(e).__name__]
-                    outcome, detail = guarded(attempt, lambda: self.fresh_repo(submit))
+                    try:
+                        watch = needs_watchdog(t3.get_raw_bundle(), good_container, False)
+                    except Exception:       # noqa: BLE001  (base64 that does not decode: the install raises)
+                        watch = False
+                    outcome, detail = guarded(attempt, lambda: self.fresh_repo(submit)) if watch else attempt(self.fresh_repo(submit))
                     o["bundleTamper"].append({"section": "base64-text", "outcome": outcome, "pos": pos, "detail": detail})
             # ---- merging by the directive vs merging from the branch
             if do_merge:
@@ -666,7 +698,9 @@ def signatures(row, law):
     md = c["md"]
     combo = "".join(k[0] for k in ("msg", "patch", "bundle", "src") if md[k]) or "-"
     if law == "bundletamper":
-        return sorted({"bundletamper:MergeDirective2:base64-text:%s" % ("accepted-changed" if t["outcome"] == "changed" else t["outcome"])
+        # a hang is the same defect as for a plain bundle: the pack reader busy-loops on the cut / empty container it is handed
+        return sorted({"tamper:v4:bz2-stream:hang" if t["outcome"] == "hang" else
+                       "bundletamper:MergeDirective2:base64-text:%s" % ("accepted-changed" if t["outcome"] == "changed" else t["outcome"])
                        for t in o["bundleTamper"] if t["outcome"] not in ("rejected", "same")})
     if law == "patchtamper":
         return ["patchtamper:MergeDirective2._verify_patch:accepted"]
